@@ -348,4 +348,56 @@ theorem scaleDynKind_compound (s : V3 K) (ps : List Kind3) :
       | zero => simp only [List.getElem?_cons_zero, Option.some.injEq] at h; simp [scaleDynKinds, h]
       | succ j => simp only [List.getElem?_cons_succ] at h; simp only [scaleDynKinds, List.getElem?_cons_succ]; exact ih j p h
 
+/-! ### `TriMesh::scaled` keeps an ORIENTED mesh outward-wound (corrected behaviour) -/
+
+private theorem mirrors_iff (s : V3 K) (hx : s.x ≠ 0) (hy : s.y ≠ 0) (hz : s.z ≠ 0) :
+    letI := fieldNum K sq
+    (mirrors s = true ↔ s.x * s.y * s.z < 0) ∧ (mirrors s = false ↔ 0 < s.x * s.y * s.z) := by
+  letI := fieldNum K sq
+  rcases lt_or_gt_of_ne hx with hx' | hx' <;> rcases lt_or_gt_of_ne hy with hy' | hy' <;> rcases lt_or_gt_of_ne hz with hz' | hz'
+  · have : s.x * s.y * s.z < 0 := mul_neg_of_pos_of_neg (mul_pos_of_neg_of_neg hx' hy') hz'
+    simp [mirrors, hx', hy', hz', this, not_lt.mpr this.le]
+  · have : 0 < s.x * s.y * s.z := mul_pos (mul_pos_of_neg_of_neg hx' hy') hz'
+    simp [mirrors, hx', hy', not_lt.mpr hz'.le, this, not_lt.mpr this.le]
+  · have : 0 < s.x * s.y * s.z := mul_pos_of_neg_of_neg (mul_neg_of_neg_of_pos hx' hy') hz'
+    simp [mirrors, hx', hz', not_lt.mpr hy'.le, this, not_lt.mpr this.le]
+  · have : s.x * s.y * s.z < 0 := mul_neg_of_neg_of_pos (mul_neg_of_neg_of_pos hx' hy') hz'
+    simp [mirrors, hx', not_lt.mpr hy'.le, not_lt.mpr hz'.le, this, not_lt.mpr this.le]
+  · have : 0 < s.x * s.y * s.z := mul_pos_of_neg_of_neg (mul_neg_of_pos_of_neg hx' hy') hz'
+    simp [mirrors, hy', hz', not_lt.mpr hx'.le, this, not_lt.mpr this.le]
+  · have : s.x * s.y * s.z < 0 := mul_neg_of_neg_of_pos (mul_neg_of_pos_of_neg hx' hy') hz'
+    simp [mirrors, hy', not_lt.mpr hx'.le, not_lt.mpr hz'.le, this, not_lt.mpr this.le]
+  · have : s.x * s.y * s.z < 0 := mul_neg_of_pos_of_neg (mul_pos hx' hy') hz'
+    simp [mirrors, hz', not_lt.mpr hx'.le, not_lt.mpr hy'.le, this, not_lt.mpr this.le]
+  · have : 0 < s.x * s.y * s.z := mul_pos (mul_pos hx' hy') hz'
+    simp [mirrors, not_lt.mpr hx'.le, not_lt.mpr hy'.le, not_lt.mpr hz'.le, this, not_lt.mpr this.le]
+
+/-- **the scaled ORIENTED mesh is still outward-wound, for every non-degenerate scale of any sign**: a face `(a, b, c)` with
+the inner point `d` on its negative side is mapped by `TriMesh::scaled` (vertices scaled, winding reversed exactly when the
+number of negative factors is odd) to a face with `s∘d` on its negative side -/
+theorem trimeshScaled_keeps_outward (s a b c d : V3 K) (hx : s.x ≠ 0) (hy : s.y ≠ 0) (hz : s.z ≠ 0)
+    (h : @vol6 K (fieldNum K sq) a b c d < 0) :
+    letI := fieldNum K sq
+    vol6 (rewind true s (scalePt s a) (scalePt s b) (scalePt s c)).1 (rewind true s (scalePt s a) (scalePt s b) (scalePt s c)).2.1
+      (rewind true s (scalePt s a) (scalePt s b) (scalePt s c)).2.2 (scalePt s d) < 0 := by
+  letI := fieldNum K sq
+  obtain ⟨hm, hn⟩ := mirrors_iff sq s hx hy hz
+  cases hmir : mirrors s with
+  | true =>
+    simp only [rewind, hmir, Bool.and_self, if_true]
+    exact mirror_swap_restores sq s a b c d (hm.mp hmir) h
+  | false =>
+    simp only [rewind, hmir, Bool.and_false, Bool.false_eq_true, if_false]
+    exact winding_kept_of_pos sq s a b c d (hn.mp hmir) h
+
+/-- the pinned-tree rule "keep the index buffer" is refuted: unit tetrahedron face, scale `(-1, 1, 1)` -/
+theorem keep_indices_refuted :
+    letI := fieldNum ℚ id
+    let a : V3 ℚ := ⟨0, 0, 0⟩; let b : V3 ℚ := ⟨0, 1, 0⟩; let c : V3 ℚ := ⟨1, 0, 0⟩; let d : V3 ℚ := ⟨0, 0, 1⟩; let s : V3 ℚ := ⟨-1, 1, 1⟩
+    vol6 a b c d < 0 ∧ mirrors s = true ∧ ¬ vol6 (scalePt s a) (scalePt s b) (scalePt s c) (scalePt s d) < 0 ∧
+      trimeshScaledIdx true s [(0, 1, 2)] = [(1, 0, 2)] ∧ trimeshScaledIdx false s [(0, 1, 2)] = [(0, 1, 2)] := by
+  simp only [vol6, scalePt, mirrors, trimeshScaledIdx, V3.cmul, V3.sub, V3.cross, V3.dot]
+  norm_num
+  rfl
+
 end C19
